@@ -444,6 +444,21 @@ func main() {
 		}
 		o.Set("lsm.rotateGuardOp", a, g, len(guards) == 1, "gt")
 		o.Set("lsm.oversizeAlone", a, b(alone), sb != nil, "false")
+		// NewLSM gives a non-positive MemTableSize a default
+		nl := lsmf.Func("NewLSM")
+		defaulted := false
+		if nl != nil {
+			ast.Inspect(nl.Body, func(x ast.Node) bool {
+				if s, ok := x.(*ast.IfStmt); ok {
+					c := strings.ReplaceAll(lsmf.Src(s.Cond), " ", "")
+					if (c == "opt.MemTableSize<=0" || c == "opt.MemTableSize<1") && strings.Contains(lsmf.Src(s.Body), "opt.MemTableSize =") {
+						defaulted = true
+					}
+				}
+				return true
+			})
+		}
+		o.Set("lsm.sizeDefaulted", "lsm/lsm.go:NewLSM", b(defaulted), nl != nil, "false")
 	}
 
 	// ------------------------------------------------------------ acquireItem: order of the exit loads
@@ -483,13 +498,13 @@ def cfg : AllCfg :=
            enqFailKeepsRef := %s, getClosed := .%s },
     h := { exitOrder := .%s },
     w := { getGuard := %s },
-    p := { fitOp := .%s, guardOp := .%s, oversizeAlone := %s } }
+    p := { fitOp := .%s, guardOp := .%s, oversizeAlone := %s, sizeDefaulted := %s } }
 
 end NoKV.Generated.Queue
 `, f["q.tooBigCountOp"], f["q.tooBigSizeOp"], f["q.batchCountOp"], f["q.batchSizeOp"],
 		f["q.thrLoopChecksClosed"], f["q.closeReleasesThrottle"], f["q.singleWorker"], f["q.fifoPop"],
 		f["q.ackAfterApply"], f["q.pathOrderStd"], f["q.closeOrderStd"], f["q.enqChecksClosed"],
 		f["q.enqFailKeepsRef"], f["q.getClosed"], f["q.exitCheckOrder"], f["q.getGuard"],
-		f["lsm.batchFitOp"], f["lsm.rotateGuardOp"], f["lsm.oversizeAlone"])
+		f["lsm.batchFitOp"], f["lsm.rotateGuardOp"], f["lsm.oversizeAlone"], f["lsm.sizeDefaulted"])
 	o.Write(*jsonOut, *leanOut, lean)
 }
